@@ -20,7 +20,9 @@ EXTENDS Integers, Sequences, FiniteSets, TLC, Json
 Storages == {"contiguous", "chunked"}
 Filters == {"none", "gzip", "lzf", "zstd1", "zstd5", "zstd9"}
 ChunkRels == {"smaller", "equal", "larger"}
-Lens == {"zero", "one", "many"}
+\* "large": enough events that a dataset written without explicit chunks is
+\* split into several chunks by HDF5 with a remainder (blockwise copies)
+Lens == {"zero", "one", "many", "large"}
 StrKinds == {"fixed", "vlen"}
 Tasks == {"compress", "repack", "repack-strip-logs", "repack-strip-basins",
           "condense", "condense-no-ancillary"}
@@ -32,7 +34,7 @@ Valid(d) ==
     /\ d.storage = "contiguous" => (d.filter = "none" /\ d.chunk = "equal")
     /\ d.len = "zero" => d.storage = "chunked"      \* empty needs a resizable (chunked) dataset
     /\ (d.chunk = "larger") => d.storage = "chunked"
-    /\ (d.chunk = "smaller") => d.len = "many"
+    /\ (d.chunk = "smaller") => d.len \in {"many", "large"}
 
 ProperlyCompressed(d) == d.filter \in {"zstd5", "zstd9"}
 
@@ -51,6 +53,9 @@ VARIABLES descr, pipe
 
 Init == /\ descr \in {d \in Descr : Valid(d)}
         /\ pipe \in UNION {[1..k -> Tasks] : k \in 1..2}
+        \* the second task of a pipeline always reads the first task's output
+        \* layout, so the (expensive) large inputs are run through one task
+        /\ descr.len = "large" => Len(pipe) = 1
 Next == UNCHANGED <<descr, pipe>>
 
 EveryRoutePreserves ==
